@@ -38,6 +38,8 @@ type Ledger struct {
 	Writes []WriteCall
 	Reads  []string
 	Decide func(c WriteCall) (*ledger.Transaction, error)
+	// GetTx, when set, answers GetTransactionWithVolumes (the store's semantics are the caller's business: PIT filter etc.)
+	GetTx func(q ledgerstore.GetTransactionQuery) (*ledger.ExpandedTransaction, error)
 }
 
 func (l *Ledger) read(n string) {
@@ -95,6 +97,9 @@ func (l *Ledger) GetTransactions(ctx context.Context, q ledgerstore.GetTransacti
 }
 func (l *Ledger) GetTransactionWithVolumes(ctx context.Context, q ledgerstore.GetTransactionQuery) (*ledger.ExpandedTransaction, error) {
 	l.read("GetTransactionWithVolumes")
+	if l.GetTx != nil {
+		return l.GetTx(q)
+	}
 	return &ledger.ExpandedTransaction{Transaction: *ledger.NewTransaction().WithID(big.NewInt(0))}, nil
 }
 func (l *Ledger) CreateTransaction(ctx context.Context, p command.Parameters, data ledger.RunScript) (*ledger.Transaction, error) {
